@@ -1296,6 +1296,17 @@ func TestReplay(t *testing.T) {
 	if rp == nil {
 		t.Skip("no VERIF_REPLAY")
 	}
+	if rp.Test == "TestSharedListener" {
+		var sc sharedCase
+		if err := json.Unmarshal(rp.Case, &sc); err != nil {
+			t.Fatal(err)
+		}
+		fmt.Println("REPLAYED structured")
+		if msg, _ := runShared(sc); msg != "" {
+			t.Fatalf("property C06 violated: %s", msg)
+		}
+		return
+	}
 	var c caseT
 	if err := json.Unmarshal(rp.Case, &c); err != nil {
 		t.Fatal(err)
